@@ -331,6 +331,14 @@ func ruleWriteValidates(c *Ctx) {
 					if e.Addr.contains(func(x *Term) bool { return x.Op == "sym" && strings.HasPrefix(x.Name, "p:") }) {
 						bad = append(bad, "the configuration is edited ("+prettyTerm(e.Addr)+") after it was validated and before it is written: what is saved is not what was accepted on "+where)
 					}
+				case e.Kind == "call" && e.Callee != nil && !isPike(e.Callee) && (e.Callee.Name() == "Unmarshal" || e.Callee.Name() == "UnmarshalStrict" || e.Callee.Name() == "Decode"):
+					for _, a := range e.Args {
+						if a != nil && a.contains(func(x *Term) bool { return x.Op == "sym" && strings.HasPrefix(x.Name, "p:") }) && !a.IsConst() {
+							if _, isPtr := a.strip().Type.(*types.Pointer); isPtr || strings.Contains(fmt.Sprint(a.strip().Type), "PikeConfig") {
+								bad = append(bad, "after validation a document is decoded over the configuration ("+funcName(e.Callee)+"): what is saved was never validated on "+where)
+							}
+						}
+					}
 				case e.Kind == "call" && e.Callee != nil && inPkg(e.Callee, "config") && e.Callee.Name() != "Validate":
 					if ms := c.P.mods(e.Callee); ms != nil && (ms.unknown || len(ms.fields) > 0) {
 						for fv := range ms.fields {
